@@ -1414,6 +1414,15 @@ class Model:
             sample_index = len(value_shape) - len(batch_shape) - len(event_shape)
             sample_shape = value_shape[:sample_index]
 
+            if sample_index >= 0:
+                stop = sample_index + len(batch_shape)
+                value_batch_shape = tuple(value_shape[sample_index:stop])
+
+                if value_batch_shape != tuple(batch_shape):
+                    # the parameters broadcast against the value, e.g. one location
+                    # for all observations: one realisation per element of the value
+                    tfp_dist = jd.BatchBroadcast(tfp_dist, with_shape=value_batch_shape)
+
             value = tfp_dist.sample(sample_shape, seed)
 
             if isinstance(dist.at, VarValue):
